@@ -108,7 +108,10 @@ def gen_case(rng: random.Random) -> dict:
             ev["n"] = rng.randint(2, 6)
             ev["addrs"] = [rng.choice(GAS + IGAS) for _ in range(ev["n"])]
         if kind in ("out", "in", "outi", "ini", "burst"):
-            ev["payload"] = rng.choice(("write1", "write2", "writeb", "response", "read"))
+            # typed_*: payload of the right kind and length for the DPT the GA->DPT table gives the address (if it has one):
+            # decodable, or a value the type cannot represent (from_knx raises ConversionError)
+            ev["payload"] = rng.choice(("write1", "write2", "writeb", "response", "read", "typed_valid", "typed_undecodable",
+                                        "typed_undecodable"))
         events.append(ev)
     # send outcomes per hand-off index
     outcomes = []
@@ -159,13 +162,30 @@ def gen_case(rng: random.Random) -> dict:
             }
         )
     ga_dpt = {}
-    if rng.random() < 0.4:
-        ga_dpt = {GAS[0]: rng.choice(("temperature", "switch", "percent")), GAS[3]: "2byte_unsigned", IGAS[0]: "string"}
+    if rng.random() < 0.5:
+        ga_dpt = {a: rng.choice(sorted(TYPED)) for a in GAS + IGAS if rng.random() < 0.7}
+        ga_dpt[rng.choice(GAS)] = rng.choice(("switch", "percent", "2byte_unsigned", "string"))
     final_join = rng.random() < 0.5
     return {"rate_limit": r, "final_join": final_join, "events": events, "outcomes": outcomes, "devices": devices, "callbacks": callbacks, "ga_dpt": ga_dpt}
 
 
-def _payload(kind: str, seq: int):
+# DPT name -> (a decodable raw value, a raw value of the right length that the type cannot represent)
+TYPED = {
+    "temperature": ((0x0C, 0x1A), (0x7F, 0xFF)),
+    "hvac_mode": ((0x01,), (0x63,)),
+    "date": ((1, 1, 20), (0, 13, 1)),
+    "time": ((10, 30, 0), (0xFF, 0xFF, 0xFF)),
+    "scene_number": ((5,), (0xFF,)),
+}
+
+
+def _payload(kind: str, seq: int, dpt: str | None = None):
+    if kind in ("typed_valid", "typed_undecodable"):
+        if dpt not in TYPED:
+            kind = "write1"
+        else:
+            raw = TYPED[dpt][0 if kind == "typed_valid" else 1]
+            return (GroupValueResponse if seq % 3 == 0 else GroupValueWrite)(DPTArray(raw))
     if kind == "write1":
         return GroupValueWrite(DPTArray((seq & 0xFF,)))
     if kind == "write2":
@@ -296,7 +316,9 @@ def execute(case: dict) -> dict:
                              tpci=TDataIndividual() if pkind == "p2p_ind" else TDataConnected(sequence_number=s % 16))
                 obs["p2p"] = obs.get("p2p", 0) + 1
             else:
-                p = _payload(pkind, s)
+                p = _payload(pkind, s, case["ga_dpt"].get(addr))
+                if pkind.startswith("typed") and case["ga_dpt"].get(addr) in TYPED:
+                    obs[pkind] = obs.get(pkind, 0) + 1
                 keyof[id(p)] = s
                 t = Telegram(destination_address=_addr(addr), payload=p)
             keep.append(t)
@@ -508,6 +530,10 @@ def judge(ctx, case: dict, obs: dict, wit: dict) -> None:
     ctx.count("rate_limit_changed_while_running", obs.get("rate_changes", 0))
     ctx.count("followup_telegrams_queued_by_devices", obs.get("followups", 0))
     ctx.count("outgoing_individual_address_telegrams", obs.get("p2p", 0))
+    ctx.count("telegrams_decodable_by_the_ga_dpt_table", obs.get("typed_valid", 0))
+    ctx.count("telegrams_of_right_length_undecodable_by_the_ga_dpt_table", obs.get("typed_undecodable", 0))
+    if case["ga_dpt"]:
+        ctx.count("histories_with_ga_dpt_table")
     rate_events = [(0.0, r)] + obs.get("rate_events", [])
 
     def rates_in_force(t0, t1):
@@ -611,7 +637,8 @@ def run(ctx):
                 "confirmation_order_checked", "release_by_con", "release_by_timeout", "release_by_send-failed",
                 "handoffs_preceded_by_a_stale_or_duplicate_con", "rate_limit_changed_while_running",
                 "spacing_checked_after_rate_limit_change", "followup_telegrams_queued_by_devices",
-                "outgoing_individual_address_telegrams")
+                "outgoing_individual_address_telegrams", "histories_with_ga_dpt_table", "telegrams_decodable_by_the_ga_dpt_table",
+                "telegrams_of_right_length_undecodable_by_the_ga_dpt_table")
     n = ctx.scale(2500, 160000)
     for i in range(n):
         if not ctx.mine(i):
